@@ -2,6 +2,7 @@ import PlumpyModel.PM.Proof3
 import PlumpyModel.PM.Proof12
 import PlumpyModel.PM.Proof14
 import PlumpyModel.PM.Proof15
+import PlumpyModel.PM.Proof16
 import PlumpyModel.PM.Proof13
 import PlumpyModel.PM.LProof12
 import PlumpyModel.Status.Model
@@ -330,6 +331,86 @@ theorem C05_partial2_extends_partial (P : Prog) (c : Cfg) (evs : List Ev) (h : a
     admissible2 P false c evs = true ∧ unpaused2 P false c evs = unpaused P c evs :=
   admissible_sub P evs c h
 
+/-! ### third part: wake-ups between a pause request that interrupted a pending wait and the next tick
+
+`admissible3` (helper lemmas in `PM/Proof16.lean`) admits a wake-up request at *every* position at which the stepping task is
+not suspended on a pause future — the quiet ones and those at which the current wait carries the interruption of a pause
+request that the stepping task has still to notice (the wake-up is then parked on the state object and put on the re-armed
+wait at the next tick) — and at the held positions of `admissible2`.  The reference history `unpaused3` drops, in addition,
+the tick at which the stepping task re-arms an interrupted wait and is then held by the pause.  The relation `Sim3` replaces
+the phase `QW` by `QW2` (through the view `unint` — interruption removed, parked wake-up on the future — it is `InStep`).
+When `play` retracted the pause before that tick, the run with pauses resumes its wait one loop iteration later than the
+reference run in the same tick: the fuel hypothesis is `fuelOkN … (fuel0 - 1)`, one iteration of slack. -/
+
+/-- **transparency (third partial class): the run with pauses is simulated by the run of its reference history.**
+For every program and every history of ticks, `pause`, `play` anywhere and `resume` / `complete` / awaitable-done /
+`call_soon` / non-raising callback ticks at every position accepted by `admissible3 P false` (`wakeOk3`), i.e. at all
+positions except those at which the stepping task is suspended on a pause future (held by a pause, or released and not yet
+woken), no wake-up has been accepted during this hold (and the hold did not begin with the re-arming of an interrupted
+wait), and the state is not WAITING on a wait without outcome — in reachable configurations: the process is held at a step
+boundary in CREATED or RUNNING, where the reference run is already ahead by the next step.  No kill / fail / cancel / failing
+callback.  The fuel hypothesis is the one of `C05_transparent_partial` with one loop iteration of slack. -/
+theorem C05_transparent_partial3 (P : Prog) (nf : Nat) (evs : List Ev)
+    (hadm : admissible3 P false (init nf) evs = true)
+    (hfuel : fuelOkN P (fuel0 - 1) (init nf) (unpaused3 P false (init nf) evs) = true) :
+    ∃ g, Sim3 P g (run P (init nf) evs) (run P (init nf) (unpaused3 P false (init nf) evs)) :=
+  run_sim3 P evs false _ _ (sim3_init P nf) (invP_init nf) (inv_init nf) hadm hfuel
+
+/-- **same steps, same context, same result (third partial class)**: under the hypotheses of `C05_transparent_partial3`, if
+the run with pauses has terminated then the reference run (no pause, no play, the same other requests in the same order) has
+terminated in the same state object, with the same executed steps, context, process future, log of entered states, cleanups
+and — apart from paused/played — listener notifications; and nothing ran while paused. -/
+theorem C05_same_result_partial3 (P : Prog) (nf : Nat) (evs : List Ev)
+    (hadm : admissible3 P false (init nf) evs = true)
+    (hfuel : fuelOkN P (fuel0 - 1) (init nf) (unpaused3 P false (init nf) evs) = true)
+    (hterm : terminal (run P (init nf) evs).st.label = true) :
+    (run P (init nf) (unpaused3 P false (init nf) evs)).st = (run P (init nf) evs).st ∧
+    (run P (init nf) (unpaused3 P false (init nf) evs)).trace = (run P (init nf) evs).trace ∧
+    (run P (init nf) (unpaused3 P false (init nf) evs)).ctx = (run P (init nf) evs).ctx ∧
+    (run P (init nf) (unpaused3 P false (init nf) evs)).fut = (run P (init nf) evs).fut ∧
+    (run P (init nf) (unpaused3 P false (init nf) evs)).entered = (run P (init nf) evs).entered ∧
+    (run P (init nf) (unpaused3 P false (init nf) evs)).cleanups = (run P (init nf) evs).cleanups ∧
+    (run P (init nf) (unpaused3 P false (init nf) evs)).notif.filter notPP = (run P (init nf) evs).notif.filter notPP ∧
+    (∀ a ∈ (run P (init nf) evs).trace, a.paused = false) := by
+  obtain ⟨g, hs⟩ := C05_transparent_partial3 P nf evs hadm hfuel
+  obtain ⟨h1, h2⟩ := hs.of_terminal hterm
+  obtain ⟨g1, g2, g3, g4, g5, g6, g7, g8, g9, g10, g11, g12, g13, g14, g15⟩ := sh_fields h2
+  exact ⟨h1, g12, g9, g2, g11, g5, g14, C05_nothing_runs_while_paused P nf evs⟩
+
+/-- **never ahead, never out of order (third partial class)** -/
+theorem C05_never_ahead_partial3 (P : Prog) (nf : Nat) (evs : List Ev)
+    (hadm : admissible3 P false (init nf) evs = true)
+    (hfuel : fuelOkN P (fuel0 - 1) (init nf) (unpaused3 P false (init nf) evs) = true) :
+    ∃ later, (run P (init nf) (unpaused3 P false (init nf) evs)).trace = later ++ (run P (init nf) evs).trace := by
+  obtain ⟨g, hs⟩ := C05_transparent_partial3 P nf evs hadm hfuel
+  exact hs.never_ahead
+
+/-- **the instance of the full statement for the third class**: for these histories the reference history required by
+`C05_transparent_full` exists and is an erasure — no pause, no play, the other requests in their original order (the
+permutation is the identity), a sublist of `erasePP evs`. -/
+theorem C05_transparent_full_on_partial3 (P : Prog) (nf : Nat) (evs : List Ev)
+    (hadm : admissible3 P false (init nf) evs = true) :
+    ∃ evs' : List Ev, evs'.Sublist (erasePP evs) ∧ (∀ e ∈ evs', e ≠ .pause ∧ e ≠ .play) ∧
+      evs'.filter (fun e => !isTick e) = (erasePP evs).filter (fun e => !isTick e) ∧
+      (fuelOkN P (fuel0 - 1) (init nf) evs' = true → terminal (run P (init nf) evs).st.label = true →
+        (run P (init nf) evs').st = (run P (init nf) evs).st ∧
+        (run P (init nf) evs').trace = (run P (init nf) evs).trace ∧
+        (run P (init nf) evs').ctx = (run P (init nf) evs).ctx) := by
+  refine ⟨unpaused3 P false (init nf) evs, unpaused3_sublist P evs false _, unpaused3_no_pp P evs false _,
+    unpaused3_nonticks P evs false _, ?_⟩
+  intro hf ht
+  obtain ⟨h1, h2, h3, _⟩ := C05_same_result_partial3 P nf evs hadm hf ht
+  exact ⟨h1, h2, h3⟩
+
+/-- **the third class contains the second** (and hence the first) -/
+theorem C05_partial3_extends_partial2 (P : Prog) (c : Cfg) (evs : List Ev) (h : admissible2 P false c evs = true) :
+    admissible3 P false c evs = true :=
+  admissible2_sub3 P evs false false c id h
+
+/-- the fuel hypothesis with slack implies the plain one -/
+theorem C05_fuel_slack (P : Prog) (c : Cfg) (evs : List Ev) (h : fuelOkN P (fuel0 - 1) c evs = true) : fuelOk P c evs = true :=
+  fuelOkN_le P _ fuel0_pred_le evs c h
+
 -- non-vacuity: a pause takes effect at the step boundary, the continuation only runs after play
 section
 private def two : Prog := fun fn _ _ _ => if fn = 0 then ⟨1, .ret (.cont 1 [] [])⟩ else ⟨0, .ret (.stop none true)⟩
@@ -404,6 +485,33 @@ example : fuelOk wc3 (init 2) (unpaused2 wc3 false (init 2) wc3Hist) = true := b
 example : (run wc3 (init 2) wc3Hist).st = .finished (some 3) true := by decide +kernel
 example : (run wc3 (init 2) wc3Hist).ctx = [(6, 4), (5, 3)] := by decide +kernel
 example : (run wc3 (init 2) wc3Hist).trace.length = 2 := by decide +kernel
+-- third class: a pause request interrupts the pending wait, `resume` is parked on the interrupted wait (rejected by
+-- `admissible2`); (a) the pause takes effect at the next tick, the process is held with the outcome already there, play, tick;
+-- (b) play retracts the pause first, the next tick re-arms the wait and resumes it at once
+private def qHistA : List Ev := [.tick, .tick, .pause, .resume (some 7), .tick, .tick, .play, .tick, .tick]
+private def qHistB : List Ev := [.tick, .tick, .pause, .resume (some 7), .play, .tick, .tick]
+example : admissible2 wt false (init 0) qHistA = false ∧ admissible2 wt false (init 0) qHistB = false := by decide +kernel
+example : admissible3 wt false (init 0) qHistA = true ∧ admissible3 wt false (init 0) qHistB = true := by decide +kernel
+example : unpaused3 wt false (init 0) qHistA = [.tick, .tick, .resume (some 7), .tick, .tick] := by decide +kernel
+example : unpaused3 wt false (init 0) qHistB = [.tick, .tick, .resume (some 7), .tick, .tick] := by decide +kernel
+example : fuelOkN wt (fuel0 - 1) (init 0) (unpaused3 wt false (init 0) qHistA) = true := by decide +kernel
+example : fuelOkN wt (fuel0 - 1) (init 0) (unpaused3 wt false (init 0) qHistB) = true := by decide +kernel
+example : (run wt (init 0) qHistA).st = .finished (some 7) true ∧ (run wt (init 0) qHistA).trace.length = 3 := by decide +kernel
+example : (run wt (init 0) qHistB).st = .finished (some 7) true ∧ (run wt (init 0) qHistB).trace.length = 3 := by decide +kernel
+-- third class, workchain: the pause request interrupts the wait on two futures; both complete and their done-callbacks run
+-- before the stepping task notices (the second one parks the wake-up); held, a `call_soon` while held, play
+private def wc4 : Prog := fun fn _ _ ctx =>
+  match fn with
+  | 0 => ⟨0, .ret (.waitOn 1 [(0, 5), (1, 6)])⟩
+  | _ => ⟨0, .ret (.stop ((ctx.find? (·.1 = 5)).map (·.2)) true)⟩
+private def wc4Hist : List Ev :=
+  [.tick, .complete 0 (.result 3), .pause, .tickCb (.adone 0), .complete 1 (.result 4), .tickCb (.adone 1), .tick,
+   .callSoon false, .play, .tick, .tickCb (.usercb false)]
+example : admissible2 wc4 false (init 2) wc4Hist = false := by decide +kernel
+example : admissible3 wc4 false (init 2) wc4Hist = true := by decide +kernel
+example : fuelOkN wc4 (fuel0 - 1) (init 2) (unpaused3 wc4 false (init 2) wc4Hist) = true := by decide +kernel
+example : (run wc4 (init 2) wc4Hist).st = .finished (some 3) true ∧ (run wc4 (init 2) wc4Hist).ctx = [(6, 4), (5, 3)] := by
+  decide +kernel
 end
 /-!
 ## pause / play requested DURING a transition (listeners, state-event callbacks)
